@@ -444,6 +444,9 @@ def run(model, rep, tier):
     check_key(model, rep)
     check_recursion_specifics(model, rep)
     check_users(model, rep)
+    from rules.c17 import check_state_coverage
+    from rules.c03 import _Rename
+    check_state_coverage(model, _Rename(rep, {'R17.3': 'R18.4'}))   # the key of a memoised solve includes the hash of its method object
     rep.require('R18.1', 14)
     rep.require('R18.4', 9)
     rep.require('R18.6', 9)
